@@ -119,7 +119,7 @@ def c15_2(R):
         R.fail([er.name, "ssthresh-shape"], "entering fast recovery no longer sets ssthresh = max(reduced cwnd, 2)", where=er.where(), instance="recovery: ssthresh=max(cwnd,2)")
 
 
-@rule("C15.3", ["C15"], ["E4"], "an MSS change rescales the window uniformly instead of resetting it",
+@rule("C15.3", ["C15", "C05"], ["E4"], "an MSS change rescales the window uniformly instead of resetting it",
       "set_mss, under self.mss != mss, multiplies cwnd, ssthresh, w_max and w_max_last by the same rescale = self.mss as f64 / mss as f64 and then stores mss.")
 def c15_3(R):
     b = R.body(CUB + "set_mss")
@@ -144,7 +144,20 @@ def c15_3(R):
     else:
         R.fail([b.name, "rescale", "fields=%s same=%s old/new=%s" % (sorted(f.split(".")[1] for f in scaled), same, shape)], "set_mss no longer rescales all four window quantities by old_mss / new_mss", where=b.where(), instance="uniform-rescale")
     wm = [s for s in b.stmts() if written_field(b, s) == "Cubic.mss"]
-    if wm and value_sources(b, wm[0].rv.ops[0]) == {("param", 2)} and all(s.bb in b.reachable(x.bb) for s in wm for x in b.stmts() if field_update(b, x) and field_update(b, x).op == "*="):
+    # the factor must be computed from the OLD mss: no store of Cubic.mss may reach the read that feeds the numerator
+    stale = False
+    if scaled:
+        t0 = list(scaled.values())[0]
+        if t0.kind == "rv" and t0.root[1].rv.kind == "bin":
+            num = trace(b, t0.root[1].rv.ops[0])
+            reads = [st for st in num.steps if isinstance(st, Stmt) and st.rv.ops and st.rv.ops[0].place is not None and st.rv.ops[0].place.last_field == "Cubic.mss"]
+            reads = reads or ([t0.root[1]] if any(o.place is not None and o.place.last_field == "Cubic.mss" for o in t0.root[1].rv.ops) else [])
+            if not reads:
+                stale = True
+            for rd in reads:
+                if any(point_reaches(b, w, rd) for w in wm):
+                    stale = True
+    if wm and value_sources(b, wm[0].rv.ops[0]) == {("param", 2)} and not stale and all(point_reaches(b, x, s) for s in wm for x in b.stmts() if field_update(b, x) and field_update(b, x).op == "*="):
         R.ok("mss-stored-after-rescale", b.name)
     else:
         R.fail([b.name, "mss-store"], "set_mss does not store the new mss after rescaling", where=b.where(), instance="mss-stored-after-rescale")
